@@ -346,8 +346,8 @@ func checkTable(c tableCase) error {
 	}
 	for i := range probes {
 		p := &probes[i]
-		if p.conn != nil && !p.conn.WaitClosed(10*time.Second) {
-			return fmt.Errorf("probe to %v was not closed by the server within 10s", p.addr)
+		if p.conn != nil && !p.conn.WaitClosed(45*time.Second) {
+			return fmt.Errorf("probe to %v was not closed by the server within 45s", p.addr)
 		}
 	}
 	// udp probes have no close signal: wait until every expected stub finished
